@@ -371,8 +371,15 @@ func (gen *filterGen) Type(typ types.Type) string {
 		return gen.Struct(t)
 	case *types.TypeParam:
 		return gen.TypeParam(t)
+	case *types.Basic:
+		// byte and rune are aliases of uint8 and int32: print the canonical
+		// name so that identical types always yield the same filter.
+		if t.Kind() == types.Byte || t.Kind() == types.Rune {
+			return types.Typ[t.Kind()].Name()
+		}
+		return t.String()
 	default:
-		// Anything else, like basics, just stringify normally.
+		// Anything else just stringify normally.
 		return t.String()
 	}
 }
